@@ -76,6 +76,7 @@ class Ctx:
         self.n_discharged = 0
         self.unknown = []
         self.tags = []
+        self._stubs, self._overrides, self._attr_overrides = [], [], []
 
     # ---- inputs
     def _get(self, name):
@@ -281,6 +282,43 @@ class Ctx:
     def tag(self, t):
         self.tags.append(t)
 
+    # ---- environment stubs
+    def stub(self, owner, name, replacement):
+        """Replace attribute `name` of module/class `owner` by `replacement` for the rest of this run: natively by
+        patching the attribute, symbolically by an identity override of the original callable (instrumented
+        functions run in a snapshot of their module's globals, so patching alone would not reach them)."""
+        orig = owner.__dict__[name] if name in getattr(owner, "__dict__", {}) else getattr(owner, name)
+        self._stubs.append((owner, name, orig))
+        if self.mode == 'sym':
+            target = orig.__func__ if isinstance(orig, (classmethod, staticmethod)) else orig
+            rt.OVERRIDES[id(target)] = replacement
+            self._overrides.append(id(target))
+        else:
+            setattr(owner, name, replacement)
+
+    def stub_attr(self, obj, name, value):
+        """attribute (non-callable) replacement, e.g. config.DATADIR"""
+        orig = getattr(obj, name)
+        self._stubs.append((obj, name, orig))
+        if self.mode == 'sym':
+            rt.ATTR_OVERRIDES[(id(obj), name)] = value
+            self._attr_overrides.append((id(obj), name))
+        else:
+            setattr(obj, name, value)
+
+    def cleanup(self):
+        for owner, name, orig in reversed(self._stubs):
+            if self.mode != 'sym':
+                try:
+                    setattr(owner, name, orig)
+                except (AttributeError, TypeError):
+                    pass
+        for k in self._overrides:
+            rt.OVERRIDES.pop(k, None)
+        for k in self._attr_overrides:
+            rt.ATTR_OVERRIDES.pop(k, None)
+        self._stubs, self._overrides, self._attr_overrides = [], [], []
+
     def ite(self, cond, a, b):
         """fork-free if-then-else on integers / booleans (oracle helper)"""
         if isinstance(cond, SymBool):
@@ -467,10 +505,11 @@ def dec_inputs(d):
 def run_native(fn, params, inputs, active):
     """Run harness natively on concrete inputs.  Returns dict(outcome, checks, obs, known)."""
     import warnings
+    import contextlib, io
     ctx = Ctx('conc', inputs=inputs, active=active)
     outcome = "ok"
     detail = None
-    with warnings.catch_warnings(record=True) as wl:
+    with warnings.catch_warnings(record=True) as wl, contextlib.redirect_stdout(io.StringIO()):
         warnings.simplefilter("always")
         try:
             fn(ctx, **params)
@@ -479,6 +518,8 @@ def run_native(fn, params, inputs, active):
         except Exception as e:
             outcome = "exc:" + type(e).__name__
             detail = "".join(traceback.format_exception_only(type(e), e)).strip()[:300]
+        finally:
+            ctx.cleanup()
     return dict(outcome=outcome, detail=detail, checks=[(l, bool(v)) for l, v in ctx.checks],
                 obs=[(k, plain(v)) for k, v in ctx.obs], known=list(ctx.known_hits))
 
@@ -501,13 +542,19 @@ def run_instance(inst):
     holder = {}
 
     def path(e):
+        old = holder.get('ctx')
+        if old is not None:
+            old.cleanup()
         ctx = Ctx('sym', active=active, engine=e)
         holder['ctx'] = ctx
         rt.WARNINGS.clear()
         rt.LOGGED.clear()
         rt.WRITES.clear()
         rt._reset_runs()
-        return g(ctx, **params)
+        try:
+            return g(ctx, **params)
+        finally:
+            ctx.cleanup()
 
     seen_viol = set()
     try:
